@@ -16,8 +16,7 @@ open Verif.Props.C03
 #print axioms raw_untouched
 #print axioms Verif.Spec.HtmlWs.refine_words
 #print axioms Verif.Spec.HtmlWs.refine_no_join
-#print axioms omit_allowed_partial
-#print axioms omit_allowed_counterexample
+#print axioms omit_allowed
 #print axioms doc_tags_allowed
 #print axioms tag_classes_ok
 #print axioms Verif.Proofs.HtmlOptional.p_tables_ok
